@@ -671,9 +671,13 @@ impl<'s> Tokenizer<'s> {
             StartMarker::Comment => {
                 if let Some(end) = memstr(&self.rest_bytes()[skip..], self.comment_end().as_bytes())
                 {
-                    let ws = Whitespace::from_byte(
-                        self.rest_bytes().get(end.saturating_sub(1) + skip).copied(),
-                    );
+                    // a comment without a body has no trailing whitespace marker:
+                    // the byte in front of the end delimiter belongs to the start.
+                    let ws = if end == 0 {
+                        Whitespace::Default
+                    } else {
+                        Whitespace::from_byte(self.rest_bytes().get(end - 1 + skip).copied())
+                    };
                     self.advance(end + skip + self.comment_end().len());
                     self.handle_tail_ws(ws);
                     Ok(ControlFlow::Continue(()))
